@@ -173,9 +173,23 @@ def filterGroups (fixed fresh : Bool) (sets : List (List Matcher)) (gs : List Gr
   (gs.map (fun g => { g with rules := g.rules.filter (fun r => codeMatches fixed fresh sets r.labels) })).filter
     (fun g => !g.rules.isEmpty)
 
+/-- The selector loop of `GRPCClient.Rules`: every `match[]` string of the request is parsed
+    (`extpromql.ParseMetricSelector`, third party: the model receives the parse result, `none` = parse
+    error) and becomes ONE matcher set, at its own position; a parse error fails the whole request.
+    Nothing is skipped, merged or left empty — repeated strings give repeated sets. -/
+def assembleSets : List (Option (List Matcher)) → Option (List (List Matcher))
+  | [] => some []
+  | none :: _ => none
+  | some ms :: rest => (assembleSets rest).map (ms :: ·)
+
 /-- `GRPCClient.Rules` (no name/group/file filters) -/
 def rulesPipeline (fixed fresh : Bool) (repl : List String) (sets : List (List Matcher)) (gs : List Group) :
     List Group :=
   (dedupGroups (filterGroups fixed fresh sets gs)).map (fun g => { g with rules := dedupRules repl g.rules })
+
+/-- `GRPCClient.Rules` from the request strings: `none` = the request fails ("parser ParseMetricSelector") -/
+def rulesRequest (fixed fresh : Bool) (repl : List String) (sels : List (Option (List Matcher))) (gs : List Group) :
+    Option (List Group) :=
+  (assembleSets sels).map fun sets => rulesPipeline fixed fresh repl sets gs
 
 end Thanos.Rules
